@@ -167,6 +167,9 @@ func VerifC24() {
 				continue
 			}
 			if k == p.failKey {
+				if dup {
+					verifFail("same-tx-twice-failing-read-treated-as-absent")
+				}
 				verifFail("failing-read-treated-as-absent")
 			}
 			v, ok := got[i][c24key(k)]
